@@ -22,9 +22,9 @@ EXTENDS Integers, Sequences, FiniteSets, TLC
 StrClasses == {"plain", "numCanon", "numNeg", "numTrail0", "numLead0", "numPlus", "exp", "hex", "boolLower", "boolOther",
                "squoted", "dquoted", "bracket", "jsonObj", "mapLit", "empty", "hash", "braceNonJson", "paren", "nilText"}
 TypedClasses == {"intSmall", "intBig", "floatFrac", "floatBig", "floatTiny", "boolTrue", "listInt", "listStr", "listNumStr", "listEmpty",
-                 "mapFlat", "mapNested", "mapEmpty"}
+                 "mapFlat", "mapNested", "mapEmpty", "mapStruct"}
 Classes == StrClasses \cup TypedClasses
-FieldTypes == {"string", "int", "float64", "bool", "strs", "ints", "map", "any"}
+FieldTypes == {"string", "int", "float64", "bool", "strs", "ints", "map", "any", "pint", "pstr", "struct", "pstruct"}
 
 \* FormatAny: a string is written as is, booleans as true/false, collections as JSON, everything else with %v
 FormatEffect(c) ==
@@ -39,7 +39,7 @@ ParsedAs(c) ==
   CASE c = "empty" -> "emptyText"                                  \* the value processor treats "" as missing
     [] c \in {"boolLower", "boolOther", "boolTrue"} -> "bool"
     [] c \in {"numCanon", "numNeg", "numTrail0", "numLead0", "numPlus", "intSmall", "intBig", "floatFrac", "hash"} -> "float64"
-    [] c \in {"jsonObj", "mapLit", "mapFlat", "mapNested", "mapEmpty"} -> "map"
+    [] c \in {"jsonObj", "mapLit", "mapFlat", "mapNested", "mapEmpty", "mapStruct"} -> "map"
     [] c \in {"bracket", "listInt", "listStr", "listNumStr", "listEmpty"} -> "slice"
     [] c \in {"squoted", "dquoted"} -> "unquoted"
     [] OTHER -> "string"                                           \* plain, exp, hex, braceNonJson, paren, nilText, floatBig (1e+21)
@@ -53,7 +53,8 @@ KindOf(c) ==
     [] OTHER -> "map"
 \* does the text round trip change what a field of type ft receives?  (only asked where the prefix path succeeds;
 \* the cells are those where a re-typed / re-formatted value is visible in the field: a numeric field hides "007" -> 7)
-TextTypes == {"string", "strs", "any"}
+TextTypes == {"string", "strs", "any", "pstr"}
+IntTypes == {"int", "ints", "pint"}
 Alters(c, ft) ==
   \/ c \in {"numTrail0", "numLead0", "numPlus"} /\ ft \in TextTypes            \* re-typed: 1.10 -> 1.1, 007 -> 7, +5 -> 5
   \/ c \in {"boolLower", "boolOther"} /\ ft \in TextTypes                      \* "TRUE" becomes the boolean true
@@ -61,9 +62,21 @@ Alters(c, ft) ==
   \/ c \in {"bracket", "jsonObj", "mapLit"} /\ ft \in TextTypes                \* a string becomes a list / map
   \/ c = "hash" /\ ft \in TextTypes                                            \* #{...} inside a configured value is evaluated
   \/ c = "empty" /\ ft # "map"                                                 \* "" counts as missing on the value path
-  \/ c = "intBig" /\ ft \in {"string", "int", "strs", "ints", "any"}            \* > 2^53: read back as float64
-  \/ c \in {"floatBig", "floatTiny"} /\ ft \in {"string", "int", "bool", "strs", "ints", "any"}  \* printed as 1e+21 / 1e-05: a string for ParseAny
+  \/ c = "intBig" /\ ft \in TextTypes \cup IntTypes                            \* > 2^53: read back as float64
+  \/ c \in {"floatBig", "floatTiny"} /\ ft \in TextTypes \cup IntTypes \cup {"bool"}  \* printed as 1e+21 / 1e-05: a string for ParseAny
   \/ c \in {"numCanon", "numNeg", "intSmall"} /\ ft = "any"                     \* numbers arrive as float64 in `any`
+\* C17, first sentence: where the configured value's kind IS the field's kind, binding by prefix gives the field exactly the
+\* configured value (compared as JSON text) - whatever the field held before the start.
+ExactCell(c, ft) ==
+  CASE KindOf(c) = "string" -> ft \in {"string", "any", "pstr"}
+    [] KindOf(c) = "int" -> ft \in {"int", "any", "pint"}
+    [] KindOf(c) = "float64" -> ft \in {"float64", "any"}
+    [] KindOf(c) = "bool" -> ft \in {"bool", "any"}
+    [] c = "listInt" -> ft \in {"ints", "any"}
+    [] c \in {"listStr", "listNumStr"} -> ft \in {"strs", "any"}
+    [] c \in {"mapFlat", "mapNested"} -> ft \in {"map", "any"}
+    [] c = "mapStruct" -> ft \in {"map", "any", "struct", "pstruct"}
+    [] OTHER -> FALSE          \* empty collections: absent and empty are not distinguished by the property
 RoundTripIdentity(c) == \A ft \in FieldTypes : ~Alters(c, ft)
 \* C17: binding through a placeholder equals binding by prefix -- as stated it fails for the classes below (finding F10)
 KnownF10 == {"numTrail0", "numLead0", "numPlus", "boolLower", "boolOther", "squoted", "dquoted", "bracket", "jsonObj", "mapLit",
@@ -108,7 +121,20 @@ Violates(v, c) ==
     [] c.k = "min" -> v < c.n
     [] c.k = "max" -> v > c.n
     [] c.k = "eq"  -> v # c.n
-ValidationFails(v, cs) == \E i \in 1..Len(cs) : Violates(v, cs[i])
+\* The constraints of one validate argument form ONE chain, checked left to right; the positional modifiers govern what
+\* follows them: "omitempty" ends the chain successfully when the value is empty (0 / no elements), "dive" applies the rest of
+\* the chain to every element of a list (what stands before it applies to the list itself: min / max / eq of its length).
+RECURSIVE VF(_, _, _)
+VF(v, cs, i) == IF i > Len(cs) THEN FALSE
+                ELSE IF cs[i].k = "omitempty" THEN (IF v = 0 THEN FALSE ELSE VF(v, cs, i + 1))
+                ELSE Violates(v, cs[i]) \/ VF(v, cs, i + 1)
+ValidationFails(v, cs) == VF(v, cs, 1)
+RECURSIVE VFS(_, _, _)
+VFS(xs, cs, i) == IF i > Len(cs) THEN FALSE
+                  ELSE IF cs[i].k = "dive" THEN \E j \in 1..Len(xs) : VF(xs[j], cs, i + 1)
+                  ELSE IF cs[i].k = "omitempty" THEN (IF Len(xs) = 0 THEN FALSE ELSE VFS(xs, cs, i + 1))
+                  ELSE Violates(Len(xs), cs[i]) \/ VFS(xs, cs, i + 1)
+ListValidationFails(xs, cs) == VFS(xs, cs, 1)
 \* C09: a configuration value that is missing: required -> start-up error (never a panic), optional -> the field keeps its zero value
 MissingOutcome(required) == IF required THEN "err" ELSE "zero"
 =============================================================================
